@@ -63,7 +63,7 @@ impl Part for WirePart {
         "old configuration = pools pa and pb (optionally an untouched pd) on their own mock backends; new configuration = one mutation: identical, [general]-only, pool pb removed, pool pc added, pa re-pointed to another backend, replica added to pa, pa's pool_size or pool_mode changed, pb's password changed, syntactically invalid TOML (3 kinds), semantically invalid (bad default_role, non-numeric shard, out-of-range default_shard, splitting without parser, user without password) in pa, pb or an added pool; trigger admin RELOAD or SIGHUP; optionally the pa client is inside a transaction and the pb client has a statement held at the backend while the reload happens. Oracle: invalid => SHOW CONFIG/SHOW DATABASES identical, no backend session opened or closed by the reload, later transactions on the same backend connections; valid => unchanged pools keep their backend connections (none opened), changed/added/removed pools are in effect for the next transaction (re-pointed pool served by the new backend only, removed pool answered with an error and nothing reaching any backend, added pool reachable), and work open across the reload completes on its original connection with the client's own rows. Non-trivial = a definition change or an invalid file while at least one client has open work".into()
     }
     fn cases(&self, tier: Tier) -> u64 {
-        tier.pick(250, 7_000)
+        tier.pick(1_000, 14_000)
     }
     fn strategy(&self, _tier: Tier) -> BoxedStrategy<Case> {
         let change = prop_oneof![
